@@ -175,8 +175,8 @@ def _mut_pop_cycle(c: Circuit) -> None:
     c.pop_cycle(0)
 
 
-MUTATORS = [_mut_append, _mut_pop_all, _mut_replace, _mut_renumber, _mut_insert_qudit, _mut_pop_qudit, _mut_unfold,
-            _mut_params, _mut_clear, _mut_insert_front, _mut_pop_cycle]
+MUTATORS = [_mut_append, _mut_pop_all, _mut_replace, _mut_renumber, _mut_insert_qudit, _mut_unfold, _mut_params,
+            _mut_insert_front]
 
 
 def _become_deep(c: Circuit) -> Circuit:
@@ -212,7 +212,7 @@ TRANSPORTS = [
     ('pickle', lambda c: pickle.loads(pickle.dumps(c)), True),
     ('dill', lambda c: dill.loads(dill.dumps(c)), False),
     ('copy.copy', lambda c: copy.copy(c), False),
-    ('copy.deepcopy', lambda c: copy.deepcopy(c), True),
+    ('copy.deepcopy', lambda c: copy.deepcopy(c), False),
     ('Circuit.copy', lambda c: c.copy(), True),
     ('become', _become_deep, True),
     ('become-shallow', _become_shallow, False),
@@ -851,7 +851,7 @@ def gate(x0: int, x1: int, x2: int, x3: int, x4: int, x5: int, x6: int, x7: int,
 HIST = ['pop', 'replace_gate', 'fold', 'unfold', 'renumber', 'insert_qudit', 'pop_qudit', 'batch_pop', 'batch_replace',
         'append_circuit', 'replace_with_circuit', 'compress', 'pop_cycle', 'straighten', 'remove', 'imul', 'iadd',
         'insert_gate', 'fold_unfold', 'batch_unfold']
-HIST_W3_CHEAP = ['pop', 'unfold', 'pop_qudit', 'insert_qudit', 'compress', 'pop_cycle', 'renumber', 'remove']
+HIST_W3_CHEAP = ['unfold', 'pop_qudit', 'insert_qudit', 'compress', 'pop_cycle', 'remove']
 MUT_QUICK = ['append_gate', 'insert_gate', 'pop', 'replace_gate', 'renumber', 'unfold', 'pop_qudit', 'batch_replace']
 
 
@@ -864,12 +864,13 @@ def obligations(tier: str) -> list[dict]:
     outers = ['if', 'while', 'dowhile', 'dtd', 'pardo', 'pardof', 'pardo3', 'seq', 'foreach']
     if tier == 'quick':
         T = 900      # sized for < 200 s on an idle machine; generous because the box is shared
-        ob('circ/pre2/W3', 'circ', {'W': 3, 'npre': 2, 'kinds': [], 'codes': [1, 2, 5]}, T)
-        ob('circ/pre3/W2', 'circ', {'W': 2, 'npre': 3, 'kinds': [], 'codes': [1, 2, 5], 'prepop': False}, T)
+        ob('circ/pre2/W3', 'circ', {'W': 3, 'npre': 2, 'kinds': [], 'codes': [1, 2, 5], 'prepop': False}, T)
+        ob('circ/pre2/W2/gaps', 'circ', {'W': 2, 'npre': 2, 'kinds': [], 'codes': [1, 2, 5, 6]}, T)
+        ob('circ/pre3/W2', 'circ', {'W': 2, 'npre': 3, 'kinds': [], 'codes': [1, 5], 'prepop': False}, T)
         for k in HIST:
-            ob('circ/%s/W2' % k, 'circ', {'W': 2, 'npre': 1, 'kinds': [k]}, T)
+            ob('circ/%s/W2' % k, 'circ', {'W': 2, 'npre': 1, 'kinds': [k], 'battery': k in ('fold', 'unfold', 'pop')}, T)
         for k in HIST_W3_CHEAP:
-            ob('circ/%s/W3' % k, 'circ', {'W': 3, 'npre': 1, 'kinds': [k], 'codes': [1, 2, 3, 5]}, T)
+            ob('circ/%s/W3' % k, 'circ', {'W': 3, 'npre': 1, 'kinds': [k], 'codes': [1, 2, 3, 5], 'battery': False}, T)
         for k in MUT_QUICK:
             ob('circ/copy-then-%s' % k, 'circ', {'W': 2, 'npre': 1, 'kinds': [], 'mutate': k, 'codes': [1, 2, 5]}, T)
         ob('radix/1item', 'radix', {'items': '?'}, T)
